@@ -9,6 +9,7 @@ import (
 
 	"github.com/ucan-wg/go-ucan/pkg/policy"
 	"github.com/ucan-wg/go-ucan/pkg/policy/literal"
+	"github.com/ucan-wg/go-ucan/pkg/container"
 	"github.com/ucan-wg/go-ucan/token/delegation"
 	"github.com/ucan-wg/go-ucan/token/invocation"
 
@@ -771,6 +772,7 @@ func C04() *engine.Check {
 			c04RealEnvSub("real-clock-hostile-environment", "sound"),
 			clockSub("C04"),
 			clockHistSub("C04"),
+			c04RenewSub("sound"),
 			longChainSub("C04"),
 			c04EpochSub(),
 			c04AcrossExpirySub(),
@@ -795,4 +797,122 @@ func c04RealEnvSub(name, dir string) *engine.Sub {
 	sub.Serial = true
 	sub.Rule = "[the tokens of a case are built first; the verdict is then taken once per environment setting: SOURCE_DATE_EPOCH (1970, 2000, 2100, 3000), FAKETIME, TZ, ZONEINFO, LC_ALL, LANG and four *NOW variables, set for the duration of the check] " + sub.Rule
 	return sub
+}
+
+// ---- a container.Reader as loader that holds several issues of the same grant ----
+
+type c04RenewCase struct {
+	N       int  `json:"n"`        // chain length (1 or 2)
+	Pos     int  `json:"pos"`      // link that exists in two issues
+	Other   int  `json:"other"`    // the other issue: 0 = no expiry, 1 = expires in 10 years, 2 = not yet active variant (referenced issue is active, other is not-before in 10y)
+	RefsOld bool `json:"refs_old"` // the proof list names the expired (resp. the not-yet-active) issue
+	Format  int  `json:"format"`   // 0 CBOR, 1 CAR
+}
+
+func (c *c04RenewCase) Weight() int { return c.N }
+
+func c04RenewSub(dir string) *engine.Sub {
+	name := "container-loader-with-renewed-grants"
+	if dir == "complete" {
+		name += "-completeness"
+	}
+	return &engine.Sub{
+		Name: name,
+		Rule: "the loader is a container.Reader (CBOR and CAR) that holds the chain's delegations and, for one link, TWO issues of the same grant (same issuer, audience, subject, command, policy; different nonce): one that is not valid now (expired 10 years ago, or not active for another 10 years) and one that is (no bound, or bounds 10 years away). The invocation's proof list names one of the two by its CID: the check is decided on the token the proof list names - denied for the invalid issue (C04), allowed for the valid one (C05) - whatever else the container holds; non-trivial = all",
+		Bound: func(string) string { return "chains of 1..2 links x renewed position x 3 kinds of second issue x {names old, names new} x 2 formats x 2 APIs" },
+		Setup: func(string) error { chainInit(); return nil },
+		Gen: func(tier string, emit func(any) bool) {
+			for n := 1; n <= 2; n++ {
+				for pos := 0; pos < n; pos++ {
+					for other := 0; other < 3; other++ {
+						for _, old := range []bool{true, false} {
+							for f := 0; f < 2; f++ {
+								if !emit(&c04RenewCase{N: n, Pos: pos, Other: other, RefsOld: old, Format: f}) {
+									return
+								}
+							}
+						}
+					}
+				}
+			}
+		},
+		NewCase: func() any { return &c04RenewCase{} },
+		Run: func(ctx *engine.Ctx, c any) {
+			cs := c.(*c04RenewCase)
+			keys := fixtures.ByAlg("ed25519")
+			w := container.NewWriter()
+			prf := make([]cid.Cid, cs.N)
+			seal := func(i int, nonce string, opts ...delegation.Option) cid.Cid {
+				iss, aud := alignedHolder(cs.N, i+1), alignedHolder(cs.N, i)
+				o := append([]delegation.Option{delegation.WithNonce([]byte(nonce)), delegation.WithSubject(prin(0))}, opts...)
+				d, err := delegation.New(prin(iss), prin(aud), "/a", nil, o...)
+				if err != nil {
+					panic(err)
+				}
+				b, c, err := d.ToSealed(keys[iss].Priv)
+				if err != nil {
+					panic(err)
+				}
+				w.AddSealed(c, b)
+				return c
+			}
+			for i := 0; i < cs.N; i++ {
+				if i != cs.Pos {
+					prf[i] = seal(i, "renew-nonce-plain")
+					continue
+				}
+				var invalid, valid cid.Cid
+				switch cs.Other {
+				case 0:
+					invalid = seal(i, "renew-nonce-old1", delegation.WithExpirationIn(-c04TenYears))
+					valid = seal(i, "renew-nonce-new1")
+				case 1:
+					invalid = seal(i, "renew-nonce-old2", delegation.WithExpirationIn(-c04TenYears))
+					valid = seal(i, "renew-nonce-new2", delegation.WithExpirationIn(c04TenYears))
+				default:
+					invalid = seal(i, "renew-nonce-old3", delegation.WithNotBeforeIn(c04TenYears))
+					valid = seal(i, "renew-nonce-new3", delegation.WithNotBeforeIn(-c04TenYears))
+				}
+				if cs.RefsOld {
+					prf[i] = invalid
+				} else {
+					prf[i] = valid
+				}
+			}
+			var rd container.Reader
+			var err error
+			if cs.Format == 0 {
+				var b []byte
+				if b, err = w.ToCbor(); err == nil {
+					rd, err = container.FromCbor(b)
+				}
+			} else {
+				var b []byte
+				if b, err = w.ToCar(); err == nil {
+					rd, err = container.FromCar(b)
+				}
+			}
+			if err != nil {
+				panic(err)
+			}
+			inv, err := invocation.New(prin(alignedHolder(cs.N, 0)), prin(0), "/a", prf, invocation.WithNonce(fixedNonce), invocation.WithoutInvokedAt())
+			if err != nil {
+				panic(err)
+			}
+			ctx.States(1)
+			ctx.Nontrivial(1)
+			ctx.Trans(int64(cs.N))
+			e1, e2 := bothVerdicts(inv, rd)
+			ctx.Eval(2)
+			ctx.Outcome(errLabel(e1))
+			for _, e := range []error{e1, e2} {
+				if dir == "sound" && cs.RefsOld && e == nil {
+					ctx.Failf(cs, "time-not-enforced/another-issue-of-the-grant-in-the-container", "allowed although the proof list names an issue of link %d that is not valid now (the container also holds a valid issue of the same grant)", cs.Pos)
+				}
+				if dir == "complete" && !cs.RefsOld && e != nil {
+					ctx.Failf(cs, "conforming-denied:"+errLabel(e)+"/another-issue-of-the-grant-in-the-container", "denied although the proof list names the valid issue of link %d (the container also holds an invalid issue of the same grant): %v", cs.Pos, e)
+				}
+			}
+		},
+	}
 }
